@@ -299,7 +299,8 @@ def sampleInput : Input :=
   { kind := .oci, skip := false, parseOk := true, integrityOk := true, payloadTypeOk := true,
     rest := true, decoded := some sampleDesc, artifact := { sampleDesc with annotations := [] },
     hashSupported := true, required := [("k", "v")], reader := "", viaRegistry := false,
-    refDigest := none, resolveOk := true, refForm := "", plugin := false }
+    refDigest := none, resolveOk := true, refForm := "", plugin := false,
+    blobLen := 0, boundary := 0 }
 
 /-- an accepted OCI verification with required metadata -/
 example : (run sampleInput).accepted = true := by decide
@@ -343,6 +344,68 @@ the repository part of the reference is spelled are not inputs of the decision -
 theorem concretisation_irrelevant (i : Input) (r f : String) (p : Bool) :
     run { i with reader := r, plugin := p, refForm := f } = run i := by
   simp [run, core, refused, registry]
+
+/-- **C01, large blobs**: how many bytes the reader delivers, and which size cap of the source tree that
+number lies next to, are not inputs of the decision: the blob enters it only through `artifact`, the
+descriptor (digest and size) of ALL the bytes delivered. There is no length from which on "the first
+N bytes" stand for the blob. -/
+theorem blob_length_irrelevant (i : Input) (n b : Nat) :
+    run { i with blobLen := n, boundary := b } = run i := by
+  simp [run, core, refused, registry]
+
+/-- **C01, large blobs**: when the descriptor under verification counts every byte the reader delivers
+(what the harness presents: it hashes and counts the whole stream by its own route), an accepted
+signature was made for a blob of exactly that many bytes with exactly that digest, and that is the
+descriptor returned - whatever the length. A signature for a proper prefix of the stream (a signed
+image to which bytes were appended) is never accepted. -/
+theorem blobAccept_covers_every_delivered_byte (i : Input) (hk : i.kind = .blob) (hs : i.skip = false)
+    (hwf : i.artifact.size = Int.ofNat i.blobLen) (h : (run i).accepted = true) :
+    ∃ p, i.decoded = some p ∧ p.size = Int.ofNat i.blobLen ∧ p.digest = i.artifact.digest ∧
+      (run i).returned = some { p with annotations := [] } := by
+  obtain ⟨_, _, _, _, _, p, hd, _, e1, e2, _, _, hret⟩ := blobAccept_sound i hk hs h
+  exact ⟨p, hd, by rw [e2, hwf], e1, hret⟩
+
+/-- a signature made for the first `n` bytes of a longer stream is rejected: sizes differ -/
+theorem prefix_signature_rejected (i : Input) (p : Desc) (hk : i.kind = .blob) (hs : i.skip = false)
+    (hwf : i.artifact.size = Int.ofNat i.blobLen) (hd : i.decoded = some p)
+    (hlt : p.size < Int.ofNat i.blobLen) : (run i).accepted = false := by
+  apply Bool.eq_false_iff.2
+  intro hacc
+  obtain ⟨q, hq, hsz, _, _⟩ := blobAccept_covers_every_delivered_byte i hk hs hwf hacc
+  rw [hd] at hq; cases hq
+  rw [hsz] at hlt
+  exact absurd hlt (Int.lt_irrefl _)
+
+/-- non-vacuity: a blob of 1 GiB + 1 bytes offered with a valid signature for its first 1 GiB: the model
+rejects, and `Holds` refutes an implementation that accepts (and returns the signed prefix descriptor) -/
+def prefixInput : Input :=
+  { sampleInput with
+      kind := .blob, required := [], blobLen := 1073741825, boundary := 1073741824,
+      artifact := { mediaType := "", digest := "sha256:whole", size := 1073741825, annotations := [] },
+      decoded := some { mediaType := "m", digest := "sha256:prefix", size := 1073741824, annotations := [] } }
+
+example : (run prefixInput).accepted = false := by decide
+
+example : Holds prefixInput
+    { accepted := true, outcomeError := some false,
+      payload := some { mediaType := "m", digest := "sha256:prefix", size := 1073741824, annotations := [] },
+      returned := some { mediaType := "m", digest := "sha256:prefix", size := 1073741824, annotations := [] } } = false := by
+  decide
+
+/-- ... also when the implementation hashed the right bytes but compared only the digest (signed size
+that of the prefix) -/
+example : Holds { prefixInput with
+      decoded := some { mediaType := "m", digest := "sha256:whole", size := 1073741824, annotations := [] } }
+    { accepted := true, outcomeError := some false,
+      payload := some { mediaType := "m", digest := "sha256:whole", size := 1073741824, annotations := [] },
+      returned := some { mediaType := "m", digest := "sha256:whole", size := 1073741824, annotations := [] } } = false := by
+  decide
+
+/-- the blob of exactly 1 GiB with the signature made for it is accepted -/
+example : (run { prefixInput with
+      blobLen := 1073741824,
+      artifact := { mediaType := "", digest := "sha256:prefix", size := 1073741824, annotations := [] } }).accepted = true := by
+  decide
 
 /-- outside the registry entry point the reference and the repository's answer are not inputs
 either -/
